@@ -2037,6 +2037,8 @@ namespace ST
         ST_NODISCARD
         string right(size_t size) const
         {
+            if (size >= this->size())
+                return *this;
             return substr(this->size() - size, size);
         }
 
